@@ -106,5 +106,60 @@ Proof.
     now rewrite relocate_length.
 Qed.
 
+(* ---------- n-D truncation: with a cap m, every wavenumber kept by the shift satisfies the cap test
+   ([within kdim m]: all |components| <= m, in at least one batch entry), pruned or not ---------- *)
 End OneShift.
+
+Lemma select_subset {B} (m : list bool) (l : list B) x : In x (select m l) -> In x l.
+Proof.
+  revert l. induction m as [|b m IH]; intros [|y l] H; simpl in *; try contradiction.
+  - destruct b; contradiction.
+  - destruct b; [destruct H as [->|H]; [now left|right; now apply IH]|right; now apply IH].
+Qed.
+
+Lemma select_map_true {B} (f : B -> bool) (l : list B) x : In x (select (map f l) l) -> f x = true.
+Proof.
+  induction l as [|y l IH]; simpl; [contradiction|].
+  destruct (f y) eqn:E; [intros [<-|H]; [exact E|now apply IH]|exact IH].
+Qed.
+
+Theorem nd_cap_plan (keys : list key) (dk : key) (kdim : nat) (m : Z) (k : key) :
+  In k (pk (shiftnd_plan keys dk kdim (Some m))) -> within kdim m k = true.
+Proof.
+  unfold shiftnd_plan. destruct (unique_keys _) as [k2 idx].
+  destruct (forallb (fun b : bool => b) (map (within kdim m) k2)) eqn:E; cbn [pk]; intros H.
+  - rewrite forallb_forall in E. apply E. now apply in_map.
+  - now apply select_map_true in H.
+Qed.
+
+Theorem nd_cap (negl : triple -> bool) (keys : list key) (amps : list (list triple)) (dk : key) (kdim : nat)
+    (m : Z) (prune : bool) (k : key) :
+  In k (fst (shiftnd negl keys amps dk kdim (Some m) prune)) -> within kdim m k = true.
+Proof.
+  unfold shiftnd. destruct prune; cbn [fst]; intros H.
+  - apply select_subset in H. now apply nd_cap_plan in H.
+  - now apply nd_cap_plan in H.
+Qed.
+
+(* [within] for an un-batched wavenumber (one chunk): every component is within the cap *)
+Lemma within_single (kdim : nat) (m : Z) (k : key) : (0 < kdim)%nat -> length k = kdim ->
+  within kdim m k = true -> forall x, In x k -> (Z.abs x <= m)%Z.
+Proof.
+  intros Hk Hl H x Hx. unfold within in H. rewrite Nat.max_l in H by lia.
+  destruct k as [|y k']; [contradiction|].
+  rewrite Hl in H. destruct kdim as [|d]; [lia|]. cbn [chunks] in H.
+  rewrite <- Hl in H. rewrite firstn_all, skipn_all in H.
+  assert (chunks d (length (y :: k')) [] = []) as Hc by (destruct d; reflexivity).
+  rewrite Hc in H. cbn [existsb] in H. rewrite orb_false_r in H.
+  rewrite forallb_forall in H. apply Z.leb_le. now apply H.
+Qed.
+
+(* ---------- the n-D shift rebuilds F- as the mirror conjugate of the relocated F+ (C08 mechanism) ---------- *)
+Theorem relocate_fm_mirror (p : plan) (amps : list triple) (j : nat) : (j < length (pk p))%nat ->
+  fm (nth j (relocate p amps) t0) = kconj (fp (nth (length (pk p) - 1 - j) (relocate p amps) t0)).
+Proof.
+  intros Hj. unfold relocate. rewrite !nth_tab by lia. cbn [fm fp].
+  replace (length (pk p) - 1 - (length (pk p) - 1 - j))%nat with j by lia. reflexivity.
+Qed.
+
 End Prune.
